@@ -1,9 +1,15 @@
 use crate::core::Ctx;
 
+pub mod c01;
+pub mod c08;
+pub mod c15;
 pub mod c17;
 
 pub fn lookup(prop: &str) -> Option<fn(&Ctx)> {
     Some(match prop {
+        "C01" => c01::run,
+        "C08" => c08::run,
+        "C15" => c15::run,
         "C17" => c17::run,
         _ => return None,
     })
@@ -11,6 +17,34 @@ pub fn lookup(prop: &str) -> Option<fn(&Ctx)> {
 
 /// Isolated single-case executions (`mc --one <kind> ...`), used for cases that may abort
 /// the process (stack overflow) or hang.
-pub fn one(_args: &[String]) -> i32 {
-    2
+pub fn one(args: &[String]) -> i32 {
+    match args.first().map(|s| s.as_str()) {
+        Some("pump") => {
+            let name = args.get(1).map(|s| s.as_str()).unwrap_or("");
+            let d = args.get(2).and_then(|s| s.parse().ok()).unwrap_or(1);
+            c01::one_pump(name, d)
+        }
+        Some("compile") => {
+            // mc --one compile <scss|sass|css> <source> [compressed]
+            let syn = match args.get(1).map(|s| s.as_str()) {
+                Some("sass") => crate::core::Syn::Sass,
+                Some("css") => crate::core::Syn::Css,
+                _ => crate::core::Syn::Scss,
+            };
+            let src = args.get(2).cloned().unwrap_or_default();
+            let cfg = crate::core::Cfg { syntax: Some(syn), compressed: args.get(3).map(|s| s == "compressed").unwrap_or(false), quiet: false, ..crate::core::Cfg::default() };
+            let lg = crate::core::CollectLogger::new();
+            let o = crate::core::compile_env(&src, &cfg, &crate::core::Env { fs: &grass_compiler::StdFs, logger: &lg });
+            match &o {
+                crate::core::Outcome::Ok(s) => println!("OK\n{}", s),
+                crate::core::Outcome::Err(e) => println!("ERR\n{}", e.rendered),
+                crate::core::Outcome::Panic(p) => println!("PANIC\n{}", p),
+            }
+            for e in lg.take() {
+                println!("LOG {}", e.json());
+            }
+            0
+        }
+        _ => 2,
+    }
 }
